@@ -557,6 +557,28 @@ def gen_C06(rng, tier):
             def orc(out, bld):
                 return None if out in ('valid', 'err-enc', 'err-len') else 'deserialiser handed out an invalid element'
             cases.append(Case(v(['E=dec.%s:%s' % (f, b)]), builds=('ark',), cls='deser:%s' % f, oracle=orc, nomodel=True))
+    # the remaining (Compress, Validate) modes of the stream deserialisers are public constructors too.  On the pinned
+    # tree they are `unimplemented!()` (the model says `panic`); should they ever hand out something, it must be a
+    # valid element.  Inputs: 32-byte encodings and 64-byte x||y of curve points inside and outside the group.
+    def xy64(P):
+        return hexb(P[0].to_bytes(32, 'little') + P[1].to_bytes(32, 'little'))
+    i4 = M.sqrt(q - 1)
+    pts = [('identity', (0, 1)), ('t2', (0, q - 1)), ('order4', (i4, 0)), ('order4neg', (q - i4, 0))]
+    for _ in range(3 if tier == 'quick' else 20):
+        P = M.randpoint()
+        ev = M.leg(1 - M.d * P[0] * P[0]) == 1
+        pts.append(('even' if ev else 'odd', P))
+        Q = M.add(P, (i4, 0))
+        pts.append(('odd' if ev else 'even', Q))
+        pts.append(('off-curve', (P[0], (P[1] + 1) % q)))
+        pts.append(('swapped', (P[1], P[0])))
+    blobs = [('xy:' + c, xy64(P)) for c, P in pts] + [('yx:' + c, xy64((P[1], P[0]))) for c, P in pts[:6]]
+    blobs += [('enc32', h32(s)) for s in encs[:3]] + [('enc32+pad', h32(s) + '00' * 32) for s in encs[:2]] + [('random64', hexb(bytes(rng.getrandbits(8) for _ in range(64))))]
+    for cls, b in blobs:
+        for f in ('deser_elem_unc', 'deser_elem_unchecked', 'deser_elem_unc_unchecked', 'deser_aff_unc', 'deser_aff_unchecked', 'deser_aff_unc_unchecked'):
+            def orc(out, bld):
+                return None if out in ('valid', 'err-enc', 'err-len', 'panic') else 'deserialiser mode handed out an invalid element'
+            cases.append(Case(v(['E=dec.%s:%s' % (f, b)]), builds=('ark',), cls='deser-mode:%s:%s' % (f, cls.split(':')[0]), oracle=orc, mw=False))
     return cases
 
 
